@@ -427,6 +427,15 @@ func (ex *Exec) run() (err error) {
 			st.sc.assert(e.eval(gi.Requires[0].Expr))
 		}
 	}
+	// type invariants of the receiver (encapsulated object state)
+	if recv := fn.Signature.Recv(); recv != nil && len(fn.Params) > 0 {
+		for _, ti := range ex.typeInvsFor(recv.Type()) {
+			e := &Env{st: st, pkgPath: ti.PkgPath, info: ex.prog.infoFor(ti.PkgPath), vars: map[string]BVal{}, cur: st.heap, old: st.heap, allocLo: st.alloc0}
+			e.vars[ti.Recv.Name] = BVal{Val: st.vals[fn.Params[0]]}
+			st.sc.comment("type invariant %s", ti.Requires[0].Text)
+			st.sc.assert(implies(neq(st.vals[fn.Params[0]], st.u().zero(st.vals[fn.Params[0]].Sort)), e.eval(ti.Requires[0].Expr)))
+		}
+	}
 	ex.cons = nil
 	if ex.con != nil {
 		ex.cons = append(ex.cons, ex.prog.expandContract(ex.con)...)
@@ -945,4 +954,20 @@ func (ex *Exec) assertsAt(st *State, anchor string, pos token.Pos) {
 			st.check(name, "hint", e.eval(a.Expr), "intermediate assertion: "+a.Text, a.Props, pos)
 		}
 	}
+}
+
+// typeInvsFor: type invariants declared (in the function's package) for type t
+func (ex *Exec) typeInvsFor(t types.Type) []*Contract {
+	pc := ex.prog.PC[ex.pkgPath()]
+	if pc == nil {
+		return nil
+	}
+	var out []*Contract
+	for _, ti := range pc.TypeInvs {
+		bt := ex.typeOfBinder(ti, *ti.Recv)
+		if bt != nil && types.Identical(bt, t) {
+			out = append(out, ti)
+		}
+	}
+	return out
 }
